@@ -15,6 +15,7 @@ func propC18(c *Ctx) propInfo {
 	c.proofRootLayout()
 	c.maskPropagation()
 	c.proveKeyRules()
+	c.cursorFreshness()
 	c.layoutVsSpec(func(k string) bool { return k == "tlb.MerkleProof" || k == "tlb.MerkleUpdate" })
 	c.errflow(excC06E2, "boc")
 	c.floor("E5.proof-layout", 8)
@@ -311,4 +312,46 @@ func (c *Ctx) proveKeyRules() {
 	}
 	// the proof comes from the prover's CreateProof on the cursor
 	c.check(len(callsTo(f, bocPath+".MerkleProver.CreateProof")) == 1, R, "proof bytes come from MerkleProver.CreateProof", f.Pos(), "single CreateProof call", "ProveKeyInHashmap no longer builds the proof through MerkleProver.CreateProof")
+}
+
+// cursorFreshness: each walk over the prover's tree has its own pruning set. Cursor() creates the
+// set; Ref() shares its parent's set and moves to the chosen child; CreateProof prunes with the set of
+// the cursor it is given.
+func (c *Ctx) cursorFreshness() {
+	const R = "E10.cursor-fresh"
+	if f := c.mustFn(R, "boc", "MerkleProver.Cursor"); f != nil {
+		okv := false
+		for _, m := range literalFields(f, "Cursor") {
+			fresh := len(m["pruned"]) == 1
+			if fresh {
+				_, fresh = m["pruned"][0].(*ssa.MakeMap)
+			}
+			okv = fresh && vals2leaves(m["cell"]) == "p.root"
+		}
+		c.check(okv, R, "Cursor() starts at the root with a freshly made pruning set", f.Pos(), "Cursor{cell: p.root, pruned: make(map)}", "MerkleProver.Cursor no longer gives every walk its own pruning set (or does not start at the root): marks of an earlier proof prune cells of a later one")
+	}
+	if f := c.mustFn(R, "boc", "Cursor.Ref"); f != nil {
+		okv := false
+		for _, m := range literalFields(f, "Cursor") {
+			okv = vals2leaves(m["pruned"]) == "c.pruned" && strings.HasPrefix(vals2leaves(m["cell"]), "c.cell") && strings.Contains(vals2leaves(m["cell"]), "ref")
+		}
+		c.check(okv, R, "Ref(i) keeps the walk's pruning set and moves to child i", f.Pos(), "Cursor{cell: c.cell.refs[ref], pruned: c.pruned}", "Cursor.Ref no longer shares the walk's pruning set / moves to the requested child")
+	}
+	if f := c.mustFn(R, "boc", "Cursor.Prune"); f != nil {
+		okv := false
+		allInstrs(f, func(_ *ssa.BasicBlock, in ssa.Instruction) {
+			if mu, ok := in.(*ssa.MapUpdate); ok {
+				okv = strings.Join(leaves(mu.Map), ",") == "c.pruned" && strings.Join(leaves(mu.Key), ",") == "c.cell"
+			}
+		})
+		c.check(okv, R, "Prune() marks the cursor's own cell in the walk's set", f.Pos(), "c.pruned[c.cell] = {}", "Cursor.Prune no longer marks the cursor's current cell in its pruning set")
+	}
+	if f := c.mustFn(R, "boc", "MerkleProver.CreateProof"); f != nil {
+		okv := false
+		for _, cl := range callsTo(f, modPath+"/boc.immutableCell.pruneCells") {
+			okv = strings.Join(leaves(cl.Call.Args[0]), ",") == "p.root" && strings.Join(leaves(cl.Call.Args[1]), ",") == "cursor.pruned"
+		}
+		c.check(okv, R, "CreateProof prunes the prover's root with the given cursor's set", f.Pos(), "p.root.pruneCells(cursor.pruned)", "CreateProof no longer prunes the prover's root with the pruning set of the cursor it was given")
+	}
+	c.floor(R, 4)
 }
